@@ -170,7 +170,10 @@ class Exec(ExprMixin, AccessMixin, CallMixin, StmtMixin, SpecMixin, HeapMixin, O
     for s, v in rs:
       s2 = st.fork() if len(rs) > 1 else st
       for c in s.pc[len(st.pc):]:
-        s2.assume(c)
+        if c.get_id() in s.ax:
+          s2.axiom(c)
+        else:
+          s2.assume(c)
       s2.tags.update(s.tags)
       out.append((s2, v))
     return out
